@@ -117,6 +117,7 @@ type Interp struct {
 
 	modelTypes map[string]types.Type
 	initDepth  int
+	realBuffer bool // bytes.Buffer writers run from source (vRealBuffer)
 	initTop    *ssa.Function
 	sums       []sumRec
 	allocHook  func(n *Term)
@@ -195,6 +196,7 @@ func (in *Interp) resetPath() {
 	in.unconfirmed = false
 	in.curFn = nil
 	in.initDepth = 0
+	in.realBuffer = false
 	in.allocHook = nil
 	in.sums = nil
 	in.digitCache = map[*Term]StrV{}
